@@ -144,3 +144,45 @@ MUTANTS["C17"] = [
     M("twin-key-inline", XTR, "                        cache_key = (frame, 2, 2, io.supports_utf8())\n                        if cache_key not in self._FRAME_SNIPPET_CACHE:",
       "                        utf8 = io.supports_utf8()\n                        cache_key = (frame, utf8)\n                        if cache_key not in self._FRAME_SNIPPET_CACHE:", twin=True),
 ]
+
+CAP = "src/clikit/console_application.py"
+CMD = "src/clikit/api/command/command.py"
+
+MUTANTS["C04"] = [
+    M("clamp-removed", CMD, "return min(max(int(status_code), 1), 255)", "return int(status_code)", expect="C04-R1"),
+    M("clamp-lower-bound-0", CMD, "return min(max(int(status_code), 1), 255)", "return min(max(int(status_code), 0), 255)", expect="C04-R1"),
+    M("falsy-test-removed", CMD, "        if not status_code:\n            return 0\n\n", "", expect="C04-R1"),
+    M("interrupt-status-0", CMD, "                raise\n\n            status_code = 1\n", "                raise\n\n            status_code = 0\n", expect="C04-R1"),
+    M("unclamped-exception-code", CAP, "return min(max(e.code, 1), 255)", "return e.code", expect="C04-R1"),
+    M("kbd-interrupt-zero", CAP, "        except KeyboardInterrupt:\n            status_code = 1\n", "        except KeyboardInterrupt:\n            status_code = 0\n", expect="C04-R1"),
+    M("handler-narrowed", CAP, "        except Exception as e:\n            if not self._config.is_exception_caught():\n                raise\n\n            trace = ExceptionTrace(\n                e,\n                solution",
+      "        except CliKitException as e:\n            if not self._config.is_exception_caught():\n                raise\n\n            trace = ExceptionTrace(\n                e,\n                solution", expect="C04-R2"),
+    M("resolve-before-try", CAP,
+      "        io = self._preliminary_io\n        try:\n            if args is None:\n                args = ArgvArgs()\n",
+      "        io = self._preliminary_io\n        if args is None:\n            args = ArgvArgs()\n        early = self.resolve_command(args)\n        try:\n", expect="C04-R2"),
+    M("always-reraise", CAP, "            if not self._config.is_exception_caught():\n                raise\n\n            trace = ExceptionTrace(\n                e,\n                solution",
+      "            if self._config.is_debug():\n                raise\n\n            trace = ExceptionTrace(\n                e,\n                solution", expect="C04-R2"),
+    M("handler-even-when-handled", CMD, "            if event.is_handled():\n                return event.status_code\n", "            if event.is_handled():\n                pass\n", expect="C04-R3"),
+    M("handler-called-twice", CMD, "        return getattr(handler, handler_method)(args, io, self)\n",
+      "        getattr(handler, handler_method)(args, io, self)\n\n        return getattr(handler, handler_method)(args, io, self)\n", expect="C04-R3"),
+    M("args-of-other-resolution", CAP, "            parsed_args = resolved_command.args\n", "            parsed_args = self.resolve_command(args).args\n", expect="C04-R5"),
+    M("new-raw-message-write", CAP, "            status_code = self.exception_to_exit_code(e)\n", "            io.error_line(str(e))\n            status_code = self.exception_to_exit_code(e)\n", expect="C04-R4"),
+    M("twin-status-helper", CMD, "        # Anything else is normalized to a valid error status code\n        return min(max(int(status_code), 1), 255)\n",
+      "        # Anything else is normalized to a valid error status code\n        code = int(status_code)\n        return max(1, min(code, 255))\n", twin=True),
+    M("twin-if-else-falsy", CMD, "        if not status_code:\n            return 0\n\n", "        if status_code:\n            pass\n        else:\n            return 0\n\n", twin=True),
+]
+
+MUTANTS["C20"] = [
+    M("ignore-filter-at-debug", XTR, "                and re.match(self._ignore, frame.filename)\n                and not io.is_debug()\n", "                and re.match(self._ignore, frame.filename)\n", expect="C20-R2"),
+    M("marker-off-by-one", XTR, "                if mark_line == i + 1:\n                    snippet = marker", "                if mark_line == i:\n                    snippet = marker", expect="C20-R3"),
+    M("numbers-from-zero", XTR, 'line_number = "{:>{}}".format(i + 1, max_line_length)', 'line_number = "{:>{}}".format(i, max_line_length)', expect="C20-R3"),
+    M("new-tainted-write", XTR, '        io.write_line("")\n        exception_message = io.remove_format',
+      '        io.write_line("<comment>{}</comment>".format(inspector.exception_message))\n        exception_message = io.remove_format', expect="C20-R1"),
+    M("message-not-written", XTR, '        self._render_line(io, "<b>{}</b>".format(exception_message))\n', "", expect="C20-R4"),
+    M("name-not-written", XTR, '        self._render_line(\n            io, "<error>{}</error>".format(inspector.exception_name), True\n        )\n', "", expect="C20-R4"),
+    M("f21-regression", XTR, "                # End of source\n                if current_type is None:\n                    current_type = self.TOKEN_DEFAULT\n\n", "                # End of source\n", expect="C20-R5"),
+    M("twin-render-line-helper", XTR, '        self._render_line(io, "<b>{}</b>".format(exception_message))\n',
+      '        text = "<b>{}</b>".format(exception_message)\n        self._render_line(io, text)\n', twin=True),
+    M("twin-enumerate-start-1", XTR, "        for i, line in enumerate(lines):\n            if mark_line is not None:\n                if mark_line == i + 1:",
+      "        for i, line in enumerate(lines):\n            if mark_line is not None:\n                if i + 1 == mark_line:", twin=True),
+]
